@@ -81,6 +81,19 @@ Theorem C13_stop : ∀ ops ts, no_stop ops →
 Proof. exact c13_stop. Qed.
 Print Assumptions C13_stop.
 
+(* Stop arriving in the middle of an operation: a stat / wstat / read / write on fid f is inside
+   its file-system call and holds f's lock while Stop runs (Model/Session.v inflight_stop).
+   Once both have returned nothing is bound and every entry ever bound has been released,
+   once, and not used afterwards.  (For operations that go on to change the table after their
+   call - walk, open, create, attach - see design/C13.md: known finding.) *)
+Theorem C13_stop_inflight : ∀ s o ts f, reach s → op_simple_fid o = Some f →
+  let s3 := (inflight_stop s o ts).2.1.1 in
+  NoDup (rel s3) ∧ (∀ f' e, ¬ B s3 f' e) ∧
+  (∀ e, e ∈ bound_ever s3 → e ∈ rel s3) ∧ bad_use s3 = [] ∧
+  bound_ever s3 = bound_ever (sstep s o ts).1.1.
+Proof. exact c13_stop_inflight. Qed.
+Print Assumptions C13_stop_inflight.
+
 (* the invariant behind these, preserved by every single operation from any well-formed state *)
 Theorem C13_step_invariant : ∀ s o ts, WF s → G s → is_stop o = false → G (sstep s o ts).1.1.
 Proof. exact step_G. Qed.
@@ -125,6 +138,16 @@ Example C13_ex_stop :
   released (after (ex13_ops ++ [(OStop, [])]))
   = [(1, RcWalk); (2, RcCreate); (3, RcClunk); (4, RcRemove); (0, RcCreate); (6, RcDrop); (5, RcStop)].
 Proof. vm_compute. reflexivity. Qed.
+
+Example C13_ex_stop_inflight :
+  let '((s2, _, cs2), (s3, r, cs)) := inflight_stop (after (take 4 ex13_ops)) (OStat 2) [] in
+  cs = [CStat 2] ∧ r = ROk 0 ∧ (CClunk 2) ∈ cs2 ∧ length cs2 = 4%nat
+  ∧ rel s3 ≡ₚ [0; 1; 2; 3] ∧ op_simple_fid (OStat 2) = Some 2.
+Proof.
+  vm_compute. split_and!; try done.
+  - repeat constructor.
+  - do 2 apply Permutation_skip. apply Permutation_swap.
+Qed.
 
 (* the in-place walk of an open directory fid no longer keeps the replaced entry's Readdir *)
 Example C13_ex_inplace_walk_drops_file :
